@@ -20,6 +20,7 @@ theorem verdict : (classify Generated.factsC29).Sound (Holds (cfgOf Generated.fa
 #print axioms compacted_v2
 #print axioms Hv.Storage.listing_spec
 #print axioms listing_exact
+#print axioms Hv.Storage.page_tiles
 #print axioms holds_of_good
 #print axioms holds_partial
 #print axioms longName_truncates
